@@ -11,7 +11,6 @@ import (
 	"math/rand"
 	"runtime"
 	"sort"
-	"strings"
 	"sync"
 	"sync/atomic"
 
@@ -619,5 +618,3 @@ func traceText(evs []tv.M) []string {
 	}
 	return out
 }
-
-func hasPrefix(s, p string) bool { return strings.HasPrefix(s, p) }
